@@ -450,3 +450,21 @@ add("A1", "break", CORE, "GroupBy.apply", "        value_names, value_list, type
 add("A1", "break", UTIL, "check_data_inputs_aligned", "            if len(set(lengths.values())) > 1:\n                raise ValueError(f'{', '.join(lengths)} must have equal length. Got lengths: {lengths}')\n", "", name="A1 alignment decorator no longer compares lengths", expect_func="*")
 add("A1", "keep", CORE, PRE, "        if input_len != len(self):", "        if len(self) != input_len:", name="A1 comparison operands swapped")
 add("A1", "keep", CORE, PRE, "            if not self._key_index.equals(common_index):", "            if not common_index.equals(self._key_index):", name="A1 index equality mirrored")
+
+# --------------------------------------------------------------------------------------------- O1 / O2 ownership
+add("O1", "break", CORE, "GroupBy._apply_gb_reduction", "        result_len = len(self.result_index)\n", "        result_len = len(self.result_index)\n        value_list[0][0] = 0\n", name="O1 store into the caller's first value array", accept_error=False, expect_func="*")
+add("O1", "break", NB, "_group_func_wrap", "    group_key = _val_to_numpy(group_key)\n    values = _val_to_numpy(values, as_list=True)\n", "    group_key = _val_to_numpy(group_key)\n    group_key.sort()\n    values = _val_to_numpy(values, as_list=True)\n", name="O1 in-place sort of the caller's key array", expect_func="*")
+add("O1", "break", NB, "_apply_cumulative", "    counting = 'count' in operation\n", "    counting = 'count' in operation\n    if mask is not None:\n        mask &= np.asarray(group_key) >= 0\n", name="O1 augmented assignment into the caller's mask", expect_func="*")
+add("O1", "break", NB, "_apply_rolling", "    result = rolling_1d_func(**kwargs)\n", "    result = rolling_1d_func(**kwargs)\n    np.nan_to_num(values[0], copy=False)\n", name="O1 copy=False mutation of the values", expect_func="*", accept_error=True)
+add("O1", "keep", NB, "group_mean", "    mean = sum_ / count\n", "    mean = np.divide(sum_, count, out=sum_.astype(float))\n", name="O1 out= into a fresh array")
+add("O1", "break", NB, "_apply_rolling", "    result = rolling_1d_func(**kwargs)\n", "    result = rolling_1d_func(**kwargs)\n    np.putmask(values[0], values[0] < 0, 0)\n", name="O1 np.putmask on the values", expect_func="*")
+add("O1", "break", CORE, "GroupBy.ikey_count", "return self.count_ikey()", "c = self.count_ikey()\n        np.asarray(self._group_ikey)[:1] = 0\n        return c", name="O1 store through a view of the grouping's codes", expect_func="*")
+add("O1", "break", CORE, "GroupBy._get_row_selection", "        keep = ilocs > -1\n", "        keep = ilocs > -1\n        value_list[0].sort_index(inplace=True)\n", name="O1 inplace=True on a caller-owned Series", expect_func="*")
+add("O1", "break", NB, "_cumulative_reduce", "                    target[i] = target[last_seen]\n", "                    target[i] = target[last_seen]\n                    group_key[i] = key\n", name="O1 kernel writes its key parameter", expect_func="*")
+add("O1", "break", EMAS, "ema_grouped", "    if mask is not None:\n        mask = np.asarray(mask)\n", "    if mask is not None:\n        mask = np.asarray(mask)\n        mask[np.isnan(values_arr)] = False\n", name="O1 ema_grouped clears mask entries in place", expect_func="*")
+add("O1", "keep", EMAS, "ema_grouped", "    if mask is not None:\n        mask = np.asarray(mask)\n", "    if mask is not None:\n        mask = np.array(mask, copy=True)\n        mask[np.isnan(values_arr)] = False\n", name="O1 same store on a copy")
+add("O1", "keep", NB, "_group_func_wrap", "    group_key = _val_to_numpy(group_key)\n    values = _val_to_numpy(values, as_list=True)\n", "    group_key = _val_to_numpy(group_key).copy()\n    group_key.sort()\n    values = _val_to_numpy(values, as_list=True)\n", name="O1 in-place sort of a copy")
+add("O2", "break", CORE, "GroupBy.cumsum", "return self._apply_rolling_or_cumulative_func('cumsum', values, mask, skip_na=skip_na)", "if mask is None and len(self) == 0:\n            return values\n        return self._apply_rolling_or_cumulative_func('cumsum', values, mask, skip_na=skip_na)", name="O2 cumsum returns its input on the empty path")
+add("O2", "break", NB, "_apply_rolling", "    return result", "    return values[0] if window == 1 and operation in ('min', 'max') else result", name="O2 rolling returns the (viewed) input for window 1", expect_func="*")
+add("O2", "break", CORE, "GroupBy.count_ikey", "            return numba_funcs.group_size(self.group_ikey, self.ngroups, mask=mask)", "            return self._chunk_offsets if mask is None else numba_funcs.group_size(self.group_ikey, self.ngroups, mask=mask)", name="O2 a public method hands out a cached array", expect_func="*")
+add("O1", "break", CORE, "GroupBy._apply_gb_reduction", "                    observed = self.ikey_count > 0\n", "                    observed = self.ikey_count\n                    observed[observed > 1] = 1\n", name="O1 store into the cached key counts", expect_func="*")
